@@ -204,6 +204,10 @@ func (s *BaseVisitor) EnterOC_Explain(c *parser.OC_ExplainContext) {
 	s.newUnsupportedRuleError(c)
 }
 
+func (s *BaseVisitor) EnterOC_ListOperatorExpression(c *parser.OC_ListOperatorExpressionContext) {
+	s.newUnsupportedRuleError(c)
+}
+
 /**************** EMPTY STUBS ON BASEVISITOR  */
 func (s *BaseVisitor) VisitTerminal(node antlr.TerminalNode) {}
 
@@ -423,8 +427,6 @@ func (s *BaseVisitor) EnterOC_UnaryAddOrSubtractExpression(c *parser.OC_UnaryAdd
 
 func (s *BaseVisitor) EnterOC_NonArithmeticOperatorExpression(c *parser.OC_NonArithmeticOperatorExpressionContext) {
 }
-
-func (s *BaseVisitor) EnterOC_ListOperatorExpression(c *parser.OC_ListOperatorExpressionContext) {}
 
 func (s *BaseVisitor) EnterOC_PropertyLookup(c *parser.OC_PropertyLookupContext) {}
 
